@@ -67,3 +67,50 @@ func HC19_Isolation() {
 	x2.check()
 	vReach("end")
 }
+
+func init() { vRegister("HC19_SharedDump", HC19_SharedDump) }
+
+// HC19_SharedDump: two worlds loaded from the same dump object share nothing:
+// operations on one write nothing reachable from the other or from the dump.
+func HC19_SharedDump() {
+	src := NewWorld()
+	a := src.NewEntity()
+	b := src.NewEntity()
+	src.NewEntity()
+	c := src.NewEntity()
+	src.RemoveEntity(b)
+	if vChoice("two", 2) == 1 {
+		src.RemoveEntity(c)
+	}
+	// dump and receivers live in separate allocations
+	d := new(EntityDump)
+	*d = src.DumpEntities()
+	w1, w2 := new(World), new(World)
+	// receivers whose capacity increment divides the dump size or not
+	*w1 = NewWorld(NewConfig().WithCapacityIncrement([3]int{1, 4, 5}[vChoice("cap1", 3)]))
+	*w2 = NewWorld(NewConfig().WithCapacityIncrement([3]int{1, 4, 5}[vChoice("cap2", 3)]))
+	w1.LoadEntities(d)
+	w2.LoadEntities(d)
+	// everything reachable from world 2 and from the dump must stay untouched by world 1
+	other := &struct {
+		d *EntityDump
+		w *World
+	}{d, w2}
+	n0 := len(d.Entities)
+	var before [8]Entity
+	for i := 0; i < n0 && i < 8; i++ {
+		before[i] = d.Entities[i]
+	}
+	vFootprintStart()
+	w1.NewEntity()
+	w1.RemoveEntity(a)
+	w1.NewEntity()
+	vAssert(vIsolated(unsafe.Pointer(other)), "operations on a world loaded from a dump write nothing reachable from the dump or from another world loaded from it")
+	vAssert(w2.Alive(a) && !w2.Alive(b), "a world loaded from the same dump is unaffected")
+	d2 := w2.DumpEntities()
+	vAssert(len(d2.Entities) == n0 && len(d.Entities) == n0 && d2.Next == d.Next && d2.Available == d.Available, "the dump and the second world still agree")
+	for i := 0; i < n0 && i < 8; i++ {
+		vAssert(d.Entities[i] == before[i] && d2.Entities[i] == before[i], "the dump object is not modified by worlds loaded from it")
+	}
+	vReach("end")
+}
